@@ -48,6 +48,10 @@ func (b *payPerInterval) OnClient(node store.Node) error {
 	if b.MinBalance == nil {
 		return nil
 	}
+	if node.IsHost {
+		// Hosts earn credit, they are never refused for their balance.
+		return nil
+	}
 	balance, err := b.Store.GetNodeBalance(node.ID)
 	if err != nil {
 		return err
